@@ -18,7 +18,7 @@ class Contract:
     posts: {label: fn(S,a,r)->Bool}.  raises: exception type names that may escape (assumed possible at call sites,
     every other escaping exception is an obligation).  pure: results are function symbols of the arguments."""
     def __init__(self, qual, params, result, posts, pre=None, raises=(), pure=False, loops=(), props=None,
-                 inline_closures=False, assumed=None, exc_posts=None, setup=None, note=''):
+                 inline_closures=False, assumed=None, exc_posts=None, setup=None, note='', effects=(), effects_only_if=None):
         self.qual, self.params, self.result, self.posts, self.pre = qual, params, result, posts, pre
         self.raises, self.pure, self.props, self.inline_closures = tuple(raises), pure, props or {}, inline_closures
         self.loops = list(loops)
@@ -26,6 +26,8 @@ class Contract:
         self.exc_posts = exc_posts or {}
         self.setup = setup
         self.note = note
+        self.effects = tuple(effects)            # effect atoms of a call to this function (recorded on the caller's path)
+        self.effects_only_if = effects_only_if   # fn(S,a)->Bool: every path of THIS function that performs an effect must satisfy it
         self.short = qual.split(':')[1]
 
     def loop(self, hdr, ordn):
@@ -41,6 +43,7 @@ class Contract:
         """use of the contract at a call site: fresh result + assumed postconditions (+ declared raises)"""
         S = ex.S
         outs = []
+        for e in self.effects: ex.effect(e, node, p, via=self.short)
         argvals = [ns._env[n] for n in ns._env]
         for sh in self.result_shapes(S, ns):
             q = p.fork()
@@ -138,6 +141,9 @@ def verify_function(prog, reg, c, labels=None, opts=None, timeout_ms=20000):
         outs = ex.block(fn.body, p, fr)
         for kind, q, v in outs:
             rep.paths += 1
+            effs = [t for t in q.trace if isinstance(t, tuple) and t and t[0] == 'effect']
+            if effs and c.effects_only_if is not None:
+                ex.oblige(f'effects_only_if/{effs[0][1]}@L{effs[0][2]}', q.pc, c.effects_only_if(S, fr.argns), kind='effect', trace=q.trace)
             if kind == 'fall': kind, v = 'ret', NONE
             if kind == 'ret':
                 rep.returns += 1
